@@ -115,6 +115,17 @@ StaleCSetEval(ok) ==
   /\ own' = IF ok THEN tgt ELSE -1
   /\ phase' = "csetevaldone"
   /\ UNCHANGED <<np, acc, tgt, aid0, nfev, nevals, pend, seenNone, faultSeen, patience, stats, statFault>>
+\* NAMED DEVIATION "update without evaluation": the parameters are applied, the model is not evaluated
+\* and the cache is kept.  Harmless exactly when the cache already belongs to these parameters
+\* (own = aid: a memoising implementation); otherwise the problem reports the new parameters next to
+\* the coefficients and residuals of the old ones, which C02 / C10 forbid (see Trace_VPFit).
+CSetSkip(aid) ==
+  /\ phase \in {"built", "done"}
+  /\ tgt' = aid
+  /\ own' = own
+  /\ phase' = "csetevaldone"
+  /\ nfev' = 0
+  /\ UNCHANGED <<np, acc, aid0, nevals, pend, seenNone, faultSeen, patience, stats, statFault>>
 CSetEnd ==
   /\ phase \in {"csetevaldone", "csetfailed"}
   /\ phase' = "built"
@@ -174,6 +185,26 @@ TrialSet(aid, ok) ==
      THEN tgt' = aid /\ own' = own /\ phase' = "eval" /\ UNCHANGED <<seenNone, faultSeen>>
      ELSE tgt' = tgt /\ own' = -1 /\ phase' = "setfailed" /\ seenNone' = TRUE /\ faultSeen' = TRUE
   /\ UNCHANGED <<np, acc, aid0, nevals, pend, patience, stats, statFault>>
+
+\* NAMED DEVIATION "update without evaluation" inside a fit (see CSetSkip): the optimizer is handed the
+\* cached residuals and decides on them
+TrialSetSkip(aid, dec) ==
+  /\ phase = "trial"
+  /\ dec \in {"accept", "acceptstop", "reject"}
+  /\ nfev' = nfev + 1
+  /\ tgt' = aid
+  /\ own' = own
+  /\ acc' = IF dec = "reject" THEN acc ELSE aid
+  /\ phase' = IF dec = "accept" THEN "jac" ELSE "trial"
+  /\ pend' = IF dec = "accept" THEN AllIdx ELSE {}
+  /\ UNCHANGED <<np, aid0, nevals, seenNone, faultSeen, patience, stats, statFault>>
+ResetSetSkip(aid) ==
+  /\ phase = "trial"
+  /\ aid = acc
+  /\ tgt' = acc
+  /\ own' = own
+  /\ phase' = "end"
+  /\ UNCHANGED <<np, acc, aid0, nfev, nevals, pend, seenNone, faultSeen, patience, stats, statFault>>
 
 \* admissible but without effect: the model is evaluated although its set_params failed
 EvalAfterFailedSet(ok) ==
